@@ -6,26 +6,55 @@
 (*               protected set P of at most MaxP touched families, every       *)
 (*               decision function d : P -> {allow, deny} (as its deny set),   *)
 (*               both authorizer modes and every delivery the operation has.   *)
+(*               Split cases: for every coordinate c of a runtime object type  *)
+(*               whose family F has more coordinates (interface field ...):    *)
+(*               F protected, ONLY c denied (the interface coordinate and the  *)
+(*               other implementers stay allowed), alone or together with one  *)
+(*               other family G that is allowed or denied.                     *)
+(*  PHASE=synth: hand-built plans at the resolve level (the planner never puts *)
+(*               two mutation root fields into one request): operation kind x  *)
+(*               layout (root fields per request) x first field non-null x P x *)
+(*               d x mode.                                                     *)
 (* One initial state per case; BFS prints each exactly once.                  *)
 EXTENDS Integers, Sequences, FiniteSets, TLC, Json, IOUtils, AuthzMenu
 CONSTANT MaxP
-VARIABLES op, P, den, mode, delivery
-vars == <<op, P, den, mode, delivery>>
+VARIABLES op, P, den, mode, delivery, split
+vars == <<op, P, den, mode, delivery, split>>
 MenuPhase == IOEnv.PHASE = "menu"
-Ops == IF MenuPhase THEN <<>> ELSE ndJsonDeserialize(IOEnv.OPS)
+SynthPhase == IOEnv.PHASE = "synth"
+Ops == IF MenuPhase \/ SynthPhase THEN <<>> ELSE ndJsonDeserialize(IOEnv.OPS)
+Layouts == {<<2>>, <<3>>, <<1, 2>>, <<2, 1>>}
+RECURSIVE SumSeq(_)
+SumSeq(s) == IF s = <<>> THEN 0 ELSE Head(s) + SumSeq(Tail(s))
 SeqRange(s) == {s[i] : i \in DOMAIN s}
 Init ==
   IF MenuPhase
   THEN /\ op \in DOMAIN Menu
-       /\ P = {} /\ den = {} /\ mode = "menu" /\ delivery = "menu"
-  ELSE /\ op \in DOMAIN Ops
-       /\ P \in {p \in SUBSET SeqRange(Ops[op].fams) : Cardinality(p) <= MaxP}
+       /\ P = {} /\ den = {} /\ mode = "menu" /\ delivery = "menu" /\ split = ""
+  ELSE IF SynthPhase
+  THEN \* op = [kind, layout, nnfirst]; P, den = sets of root field numbers
+       /\ op \in [kind : {"query", "mutation", "subscription"}, layout : Layouts, nnfirst : BOOLEAN]
+       /\ P \in SUBSET (1..SumSeq(op.layout))
        /\ den \in SUBSET P
        /\ mode \in {"post", "batch"}
+       /\ delivery = "sync" /\ split = ""
+  ELSE /\ op \in DOMAIN Ops
+       /\ mode \in {"post", "batch"}
        /\ delivery \in (IF Ops[op].defer THEN {"sync", "defer"} ELSE {"sync"})
+       /\ \/ /\ split = ""
+             /\ P \in {p \in SUBSET SeqRange(Ops[op].fams) : Cardinality(p) <= MaxP}
+             /\ den \in SUBSET P
+          \/ \E i \in DOMAIN Ops[op].splits :
+                LET s == Ops[op].splits[i] IN
+                /\ split = s.c
+                /\ \/ P = {s.fam} /\ den = {s.c}
+                   \/ \E G \in SeqRange(Ops[op].fams) \ {s.fam} :
+                        P = {s.fam, G} /\ den \in {{s.c}, {s.c, G}}
 Spec == Init /\ [][FALSE]_vars
 Emit ==
   IF MenuPhase
   THEN PrintT(ToJson(Menu[op]))
-  ELSE PrintT(ToJson([op |-> Ops[op].id, P |-> P, deny |-> den, mode |-> mode, delivery |-> delivery]))
+  ELSE IF SynthPhase
+  THEN PrintT(ToJson([synth |-> op, P |-> P, deny |-> den, mode |-> mode]))
+  ELSE PrintT(ToJson([op |-> Ops[op].id, P |-> P, deny |-> den, mode |-> mode, delivery |-> delivery, split |-> split]))
 =============================================================================
